@@ -234,7 +234,7 @@ Proof.
     unfold op_new. destruct (Nat.leb _ _); [simpl; auto|].
     unfold add_register. destruct (Nat.leb _ _); [simpl; auto|]. cbn [fst].
     match goal with |- hid_inv (mkNet (upd _ _ ?nd) _) /\ _ => set (nd4 := nd) end.
-    set (q := mkVq (next_hid s) _ n _) in *.
+    set (q := mkVq (next_hid s) _ n _ _) in *.
     assert (Hv : virt nd4 = virt (nth_node s n) ++ [q]) by reflexivity.
     split; [|split].
     + apply hid_inv_add with (q := q); auto.
@@ -276,9 +276,9 @@ Proof.
            { apply (hkeeps_compose _ _ HM (apply_gate2_at_hkeeps vi k2 g b b')). }
            specialize (HK _ HC). cbv beta in HK. rewrite EM in HK. exact HK.
         -- unfold add_register_force.
-           set (nd1 := mkNode _ _ _ _ _ _ _). set (r := mkReg _ _ _ _).
+           set (nd1 := mkNode _ _ _ _ _ _ _). set (r := mkReg _ _ _ _ _).
            assert (H0 : hkeeps (fun s0 => set_node s0 vi (mkNode (virt (nth_node s0 vi)) (sims (nth_node s0 vi))
-                      (regs (nth_node s0 vi) ++ [mkReg (nextReg (nth_node s0 vi)) 10 0 []]) (S (numRegs (nth_node s0 vi)))
+                      (regs (nth_node s0 vi) ++ [mkReg (nextReg (nth_node s0 vi)) 10 0 [] []]) (S (numRegs (nth_node s0 vi)))
                       (S (nextReg (nth_node s0 vi))) (maxQ (nth_node s0 vi)) (maxR (nth_node s0 vi))))).
            { intros s0. split; [apply hids_set_same|]; reflexivity. }
            destruct (merge_from (set_node s vi nd1) _ _ _ _) as [s1 newC] eqn:EM1.
@@ -294,7 +294,7 @@ Proof.
     destruct (Nat.leb _ _); [simpl; auto|].
     cbn [fst].
     set (tn1 := with_virt _ _). set (s1 := mkNet _ _).
-    set (nq := mkVq (next_hid s) _ _ _) in *.
+    set (nq := mkVq (next_hid s) _ _ _ _) in *.
     assert (Hv : virt tn1 = virt (nth_node s target) ++ [nq]) by reflexivity.
     assert (I1 : hid_inv s1) by (apply hid_inv_add with (q := nq); auto).
     destruct (hids_remove s1 vi h I1) as (J1 & J2 & J3).
@@ -333,7 +333,7 @@ Proof.
     destruct (Nat.leb_spec (length (nodes s)) t); [discriminate|].
     destruct (Nat.leb _ _); [discriminate|]. cbn [fst].
     set (tn1 := with_virt _ _). set (s1 := mkNet _ _).
-    set (nq := mkVq (next_hid s) _ _ _) in *.
+    set (nq := mkVq (next_hid s) _ _ _ _) in *.
     assert (Hv : virt tn1 = virt (nth_node s t) ++ [nq]) by reflexivity.
     assert (I1 : hid_inv s1) by (apply hid_inv_add with (q := nq); auto).
     destruct (hids_remove s1 vi h I1) as (J1 & J2 & J3).
